@@ -8,8 +8,9 @@ from ..util import switch_table, find_switches, is_assign
 
 EXPLANATION = (
     "Static decision of structural clauses of C02: (1) the type->value-size tables used for cursor "
-    "arithmetic (page_reader.get_value_size, the inline switches of carquet_column_read_batch and "
-    "carquet_column_skip, batch_reader.get_type_size) agree on all eight physical types, and the "
+    "arithmetic (page_reader.get_value_size, carquet_column_read_batch, carquet_column_skip, "
+    "batch_reader.get_type_size; obtained by executing a dedicated size function per enum value or from the "
+    "switch, also inside a helper) agree on all eight physical types, and the "
     "fixed-width tables (dictionary entry width, statistics value size) agree with them on the six "
     "fixed-width rows; (2) the column reader's cursor fields (values_remaining, page_values_read, "
     "page_num_values, page_loaded, current_page, page_header_size, page_compressed_size, "
